@@ -97,4 +97,197 @@ theorem splitAll_append (c : Char) (a b : Str) (h : ∀ x ∈ a, (x == c) = fals
   | cons x r ih =>
     simp [splitAll, ih (fun y hy => h y (by simp [hy])), h x (by simp)]
 
+theorem numStr_ne (ds : Num) (c : Char) (hc : ∀ d : Fin 10, (digitChar d == c) = false) :
+    ∀ x ∈ numStr ds, (x == c) = false := by
+  intro x hx
+  simp only [numStr, List.mem_map] at hx
+  obtain ⟨d, _, rfl⟩ := hx
+  exact hc d
+
+theorem numStr_isEmpty (ds : Num) (h : ds ≠ []) : (numStr ds).isEmpty = false := by
+  cases ds <;> simp_all [numStr]
+
+theorem parseRange_range (v : Variant) (size : Nat) (f l : Num) (hf : f ≠ []) (hl : l ≠ []) :
+    parseRange v size (Spec.range f l).str =
+      if (numVal l : Int) < numVal f then none else some ((numVal f : Int), (numVal l : Int)) := by
+  simp only [Spec.str, parseRange]
+  rw [splitOnce_append _ _ _ (numStr_ne f '-' (fun d => (digitChar_props d).2.2.2.1))]
+  simp [numStr_isEmpty f hf, numStr_isEmpty l hl, pyInt_numStr f hf, pyInt_numStr l hl]
+
+theorem parseRange_open (v : Variant) (size : Nat) (f : Num) (hf : f ≠ []) :
+    parseRange v size (Spec.openEnded f).str =
+      match v with
+      | .asIs => if (size : Int) - 1 < numVal f then none else some ((numVal f : Int), (size : Int) - 1)
+      | .fixed => some ((numVal f : Int), max (numVal f : Int) ((size : Int) - 1)) := by
+  simp only [Spec.str, parseRange]
+  rw [splitOnce_append _ _ _ (numStr_ne f '-' (fun d => (digitChar_props d).2.2.2.1))]
+  cases v <;> simp [numStr_isEmpty f hf, pyInt_numStr f hf]
+  omega
+
+theorem parseRange_suffix (v : Variant) (size : Nat) (n : Num) (hn : n ≠ []) :
+    parseRange v size (Spec.suffix n).str =
+      match v with
+      | .asIs => if (size : Int) - 1 < (size : Int) - numVal n then none
+                 else some ((size : Int) - numVal n, (size : Int) - 1)
+      | .fixed => if (size : Int) - 1 < max 0 ((size : Int) - numVal n) then none
+                  else some (max 0 ((size : Int) - numVal n), (size : Int) - 1) := by
+  simp only [Spec.str, parseRange, splitOnce]
+  cases v <;> simp [pyInt_numStr n hn]
+
+theorem spec_noComma (s : Spec) : ∀ x ∈ s.str, (x == ',') = false := by
+  have hd := numStr_ne (c := ',') (hc := fun d => (digitChar_props d).2.2.2.2.2.1)
+  intro x hx
+  cases s <;> simp only [Spec.str, List.mem_append, List.mem_cons, List.mem_singleton] at hx
+  · rcases hx with hx | rfl | hx
+    · exact hd _ x hx
+    · decide
+    · exact hd _ x hx
+  · rcases hx with hx | hx
+    · exact hd _ x hx
+    · simp at hx; subst hx; decide
+  · rcases hx with rfl | hx
+    · decide
+    · exact hd _ x hx
+
+theorem spec_noWs (s : Spec) : ∀ x ∈ s.str, isWs x = false := by
+  have hd := numStr_noWs
+  intro x hx
+  cases s <;> simp only [Spec.str, List.mem_append, List.mem_cons, List.mem_singleton] at hx
+  · rcases hx with hx | rfl | hx
+    · exact hd _ x hx
+    · decide
+    · exact hd _ x hx
+  · rcases hx with hx | hx
+    · exact hd _ x hx
+    · simp at hx; subst hx; decide
+  · rcases hx with rfl | hx
+    · decide
+    · exact hd _ x hx
+
+theorem bytesEq_split (rest : Str) : splitOnce '=' ("bytes=".toList ++ rest) = some ("bytes".toList, rest) := by
+  have : "bytes=".toList ++ rest = "bytes".toList ++ '=' :: rest := by
+    have : "bytes=".toList = "bytes".toList ++ ['='] := by decide
+    rw [this]; simp
+  rw [this]
+  exact splitOnce_append _ _ _ (by decide)
+
+/-- a header carrying one grammar range is parsed as that range -/
+theorem parseRangeHeader_single (v : Variant) (size : Nat) (s : Spec) :
+    parseRangeHeader v size (hdrOf s) = (parseRange v size s.str).map (fun p => [p]) := by
+  simp only [parseRangeHeader, hdrOf, bytesEq_split]
+  rw [splitAll_none _ _ (spec_noComma s)]
+  simp only [bne_self_eq_false, Bool.false_eq_true, ↓reduceIte, List.mapM_cons, List.mapM_nil,
+    strip_none _ (spec_noWs s)]
+  cases parseRange v size s.str <;> simp
+
+theorem mem_strip {c : Char} {s : Str} (h : c ∈ strip s) : c ∈ s := by
+  unfold strip at h
+  have h1 := (List.dropWhile_sublist isWs).subset (List.mem_reverse.mp h)
+  exact (List.dropWhile_sublist isWs).subset (List.mem_reverse.mp h1)
+
+/-- a numeral without a minus sign is not negative -/
+theorem pyInt_nonneg (s : Str) (v : Int) (hm : ∀ c ∈ s, (c == '-') = false) (h : pyInt s = some v) : 0 ≤ v := by
+  unfold pyInt at h
+  cases hs : strip s with
+  | nil => simp [hs] at h
+  | cons c r =>
+    have hc : (c == '-') = false := hm c (mem_strip (by simp [hs]))
+    simp only [hs, hc, Bool.false_eq_true, ↓reduceIte] at h
+    split at h
+    · cases hd : pyDigits 0 false r <;> simp [hd] at h; omega
+    · cases hd : pyDigits 0 false (c :: r) <;> simp [hd] at h; omega
+
+/-- what the repaired `parse_range` returns is an ordered pair of non-negative positions -/
+theorem parseRange_fixed_bounds (size : Nat) (r : Str) (a b : Int)
+    (h : parseRange .fixed size r = some (a, b)) : 0 ≤ a ∧ a ≤ b := by
+  unfold parseRange at h
+  cases hs : splitOnce '-' r with
+  | none => simp [hs] at h
+  | some p =>
+    obtain ⟨x, y⟩ := p
+    simp only [hs] at h
+    by_cases hx : x.isEmpty
+    · simp only [hx, ↓reduceIte] at h
+      cases hy : pyInt y with
+      | none => simp [hy] at h
+      | some n =>
+        simp only [hy, Option.map_some] at h
+        split at h
+        · simp at h
+        · simp at h; omega
+    · simp only [hx, Bool.false_eq_true, ↓reduceIte] at h
+      cases hxi : pyInt x with
+      | none => simp [hxi] at h
+      | some first =>
+        have hnn := pyInt_nonneg x first (splitOnce_not_mem '-' r x y hs) hxi
+        simp only [hxi] at h
+        by_cases hy : y.isEmpty
+        · simp only [hy, ↓reduceIte] at h
+          split at h
+          · simp at h
+          · simp at h; omega
+        · simp only [hy, Bool.false_eq_true, ↓reduceIte] at h
+          cases hyi : pyInt y with
+          | none => simp [hyi] at h
+          | some last =>
+            simp only [hyi, Option.map_some] at h
+            split at h
+            · simp at h
+            · simp at h; omega
+
+theorem parseRangeHeader_head (v : Variant) (size : Nat) (h : Str) (p : Int × Int) (ps : List (Int × Int))
+    (hp : parseRangeHeader v size h = some (p :: ps)) : ∃ r, parseRange v size r = some p := by
+  unfold parseRangeHeader at hp
+  cases hs : splitOnce '=' h with
+  | none => simp [hs] at hp
+  | some q =>
+    simp only [hs] at hp
+    split at hp
+    · simp at hp
+    · cases hl : splitAll ',' q.2 with
+      | nil => simp [hl] at hp
+      | cons r0 rest =>
+        simp only [hl, List.mapM_cons] at hp
+        cases h0 : parseRange v size (strip r0) with
+        | none => simp [h0] at hp
+        | some p0 =>
+          simp only [h0] at hp
+          cases hr : List.mapM (fun r => parseRange v size (strip r)) rest with
+          | none => simp [hr] at hp
+          | some l =>
+            simp [hr] at hp
+            exact ⟨strip r0, by rw [h0, hp.1]⟩
+
+theorem splitAll_setStr (s : Spec) (rest : List Spec) :
+    splitAll ',' (setStr s rest) = s.str :: rest.map Spec.str := by
+  induction rest generalizing s with
+  | nil => simp [setStr, splitAll_none _ _ (spec_noComma s)]
+  | cons t r ih => simp [setStr, splitAll_append _ _ _ (spec_noComma s), ih]
+
+theorem mapM_some_of_all {α β} (f : α → Option β) (l : List α) (h : ∀ t ∈ l, f t ≠ none) :
+    ∃ ys, l.mapM f = some ys := by
+  induction l with
+  | nil => exact ⟨[], by simp⟩
+  | cons a r ih =>
+    obtain ⟨ys, hys⟩ := ih (fun t ht => h t (by simp [ht]))
+    cases ha : f a with
+    | none => exact absurd ha (h a (by simp))
+    | some b => exact ⟨b :: ys, by simp [List.mapM_cons, ha, hys]⟩
+
+/-- a set of grammar ranges whose later members `parse_range` accepts parses to the first range's
+result followed by something -/
+theorem parseRangeHeader_set (v : Variant) (size : Nat) (s : Spec) (rest : List Spec)
+    (hrest : ∀ t ∈ rest, parseRange v size t.str ≠ none) :
+    ∃ ys, parseRangeHeader v size (hdrOfSet s rest) = (parseRange v size s.str).map (fun p => p :: ys) := by
+  obtain ⟨ys, hys⟩ := mapM_some_of_all (fun r => parseRange v size (strip r)) (rest.map Spec.str) (by
+    intro t ht
+    simp only [List.mem_map] at ht
+    obtain ⟨u, hu, rfl⟩ := ht
+    rw [strip_none _ (spec_noWs u)]
+    exact hrest u hu)
+  refine ⟨ys, ?_⟩
+  simp only [parseRangeHeader, hdrOfSet, bytesEq_split, splitAll_setStr, bne_self_eq_false,
+    Bool.false_eq_true, ↓reduceIte, List.mapM_cons, hys, strip_none _ (spec_noWs s)]
+  cases parseRange v size s.str <;> simp
+
 end Tahoe.Web
